@@ -428,6 +428,10 @@ wrapint wrapint::sext(bitwidth_t bits_to_add) const {
                " is a too big bitwidth for a wrapint");
   }
 
+  if (bits_to_add == 0) {
+    return *this;
+  }
+
   if (msb()) {
     // -- fill upper bits with ones
     // 111...1
@@ -455,7 +459,8 @@ wrapint wrapint::zext(bitwidth_t bits_to_add) const {
 wrapint wrapint::keep_lower(bitwidth_t bits_to_keep) const {
   if (bits_to_keep >= _width)
     return *this;
-  return wrapint(_n & (((uint64_t)1 << (uint64_t)(bits_to_keep + 1)) - 1),
+  // bits_to_keep < _width <= 64
+  return wrapint(_n & (((uint64_t)1 << (uint64_t)bits_to_keep) - 1),
                  bits_to_keep);
 }
 
